@@ -314,7 +314,8 @@ fn oracle_xls(case: &XlsCase) -> Report {
             .sheets
             .iter()
             .enumerate()
-            .map(|(i, m)| b8::BSheet { name: names[i].into(), cells: vec![b8::BCell { row: 0, col: 0, ixfe: 0, rec: b8::BRec::Number(1.0) }], merges: m.clone(), dimensions: 1, junk: i as u8 * 7, ..Default::default() })
+            // a sheet may declare merged regions without holding any value (a formatted template)
+            .map(|(i, m)| b8::BSheet { name: names[i].into(), cells: if (i + case.sheets.len()) % 3 == 2 { vec![] } else { vec![b8::BCell { row: 0, col: 0, ixfe: 0, rec: b8::BRec::Number(1.0) }] }, merges: m.clone(), dimensions: 1, junk: i as u8 * 7, ..Default::default() })
             .collect(),
         xfs: vec![0],
         cfb: case.cfb.clone(),
